@@ -36,7 +36,14 @@ entries and |entries| ≤ 2 slices in thorough; matrices with `a00 = 0` needed `
 and translation permutations are ground facts; after the third seed round also the *refusal* clause for `Primitive`: rock salt
 with its Cl sublattice split into `Cl`/`Cl1` (indexed symbols are distinct species), `Cl`/`Br`, or not at all, and every
 centring in {P, A, C, F, I}: the centrings that remain translations must build with matching species, the others must
-raise.  Found defect F9.  Quick 38 s."""
+raise.  After the fourth seed round (`.any()` for `.all()` in the first-column elimination, which needs entries of
+magnitude ≥ 2 to matter): templates with such first columns and two symbolic entries did not finish in 15 minutes
+(integer-nonlinear Euclid steps), so they are outside the solver bound and are covered by a **concrete sweep**
+(`snf_sweep`: all completions of five templates with entries in [−2,2] and 600 matrices with entries in [−4,4]; SNF
+postcondition and SNF supercell construction) reported as ground facts.  That sweep at once produced an alarm on the
+clean tree — D = diag(2, 1, 50) — which was *my* postcondition demanding the divisibility chain d₀|d₁|d₂; `SNF3x3`'s
+docstring says the diagonal does not follow that rule and the property needs only D = PAQ with unimodular P, Q: the
+clause was removed from the symbolic postcondition and the replay (false alarm, §6).  Found defect F9.  Quick 38 s."""
 AS["C05"] = """**As built** (`checks/c05.py`).  (ii) window completeness as planned with R = 3 (quick) / 4 (thorough)
 on ten lattices, one LRA query per outside point; plus a new unit **reduction**: `_transform_cell_basis` executed in E2
 on symbolic positions proves that what is handed to the kernel lies in [−½,½]³ of the *reduced* basis and equals
